@@ -45,6 +45,12 @@ fn run(ctx: &RunCtx) -> Report {
         Tier::Thorough => rng.chance(1, 25),
     };
     let huge = big && ctx.tier == Tier::Thorough && rng.chance(1, 4);
+    // 1 run in 8 (own random stream): *very slow links* - a third to a half of all datagrams take 0.6..3 s longer.
+    // The writer's request timeout adapts (late answers raise it to seconds); acknowledgements that arrive after
+    // 2 s but within the timeout the node itself reports are in time. Judged with the timeout series recorded
+    // from the writer's snapshots.
+    let mut vrng = Rng::new(crate::rng::key(ctx.seed, &[crate::rng::tag("c08-very-slow")]));
+    let very_slow = !big && vrng.chance(1, 8);
     let net = NetCfg {
         latency_min_us: 500,
         latency_max_us: rng.range(2_000, 60_000),
@@ -54,8 +60,21 @@ fn run(ctx: &RunCtx) -> Report {
         slow_extra_ms: (300, 1500),
         ..NetCfg::default()
     };
+    let net = if very_slow { NetCfg { drop_ppm: 0, dup_ppm: 0, slow_ppm: vrng.range(300_000, 550_000) as u32, slow_extra_ms: (600, 3000), ..net } } else { net };
     let sim = Sim::new(ctx.seed, net.clone());
-    sim.set_snap_mode(SnapMode::Off);
+    sim.set_snap_mode(if very_slow { SnapMode::Every } else { SnapMode::Off });
+    // (time, request timeout the writer reported) - filled in very-slow runs
+    let timeouts: std::rc::Rc<std::cell::RefCell<Vec<(u64, u64)>>> = Default::default();
+    let writer_cell: std::rc::Rc<std::cell::RefCell<Option<HostId>>> = Default::default();
+    if very_slow {
+        let (ts, wc) = (timeouts.clone(), writer_cell.clone());
+        sim.set_observer(Box::new(move |h, now, snap| {
+            if Some(h) == *wc.borrow() {
+                ts.borrow_mut().push((now, snap.socket.request_timeout_ns));
+            }
+        }));
+        report.probe("very_slow_link_runs", 1);
+    }
     let rawnet = RawNet::new();
     let n_raw = if huge { 640 } else if big { 330 } else { rng.usize(1, 12) };
     let n_real = if big { 0 } else { rng.usize(0, 2) };
@@ -122,8 +141,16 @@ fn run(ctx: &RunCtx) -> Report {
     wspec.server_mode = rng.chance(1, 3);
     wspec.bootstrap = addrs.iter().map(|a| a.to_string()).take(8).collect();
     let writer = sim.add_node(wspec);
+    *writer_cell.borrow_mut() = Some(writer);
     let writer_addr = sim.node_addr(writer);
     sim.run_for(4 * SEC);
+    if very_slow {
+        // some lookups first: their late answers teach the writer the round trips of these links
+        for _ in 0..vrng.usize(3, 8) {
+            let o = sim.get_closest_nodes(writer, vrng.id());
+            sim.run_ops(&[o], sim.now() + 120 * SEC);
+        }
+    }
 
     // the write
     let key = krpc::signing_key(rng.bytes(32).try_into().unwrap());
@@ -471,6 +498,16 @@ fn run(ctx: &RunCtx) -> Report {
         (stores, tokens_seen, in_time, late, e301, e302, other, first_reply, ro_replies)
     });
     report.probe("read_only_flagged_write_replies", ro_replies as u64);
+    if very_slow {
+        let ts = timeouts.borrow();
+        if ts.iter().any(|(t, to)| *t >= t_put && *to > 2 * SEC) {
+            report.probe("very_slow_runs_with_timeout_above_2s_during_the_put", 1);
+        }
+        let slow_acks = stores.iter().filter(|st| first_reply.get(&(st.dst, st.tid)).map(|v| v.1 == 0 && v.0.saturating_sub(st.t_send) > 2 * SEC).unwrap_or(false)).count();
+        if slow_acks > 0 {
+            report.probe("very_slow_runs_with_an_ack_later_than_2s", 1);
+        }
+    }
     report.probe("store_requests", stores.len() as u64);
     report.probe("acks_in_time", acks_in_time as u64);
     report.probe("acks_late", acks_late as u64);
@@ -543,6 +580,31 @@ fn run(ctx: &RunCtx) -> Report {
             }
             Res::ConflictRisk => report.violate("wrong-error", "conflict-risk-without-concurrent-put", "ConflictRisk returned with no concurrent put".into()),
             Res::Query(q) => {
+                // very slow links: an acknowledgement that arrived while its request was unexpired by the writer's
+                // own (recorded) request timeout at every instant in between reached the caller before the
+                // requests expired - the put cannot have ended in a query error
+                if very_slow && !majority_3xx {
+                    let ts = timeouts.borrow();
+                    if ts.iter().any(|(t, to)| *t >= t_put && *to > 2 * SEC) {
+                        report.probe("very_slow_query_errors_with_timeout_above_2s", 1);
+                    }
+                    let acked_in_time = stores.iter().find(|st| {
+                        first_reply.get(&(st.dst, st.tid)).map(|v| {
+                            if v.1 != 0 {
+                                return false;
+                            }
+                            let min_to = ts.iter().filter(|(t, _)| *t >= st.t_send && *t <= v.0).map(|(_, to)| *to).min();
+                            matches!(min_to, Some(m) if v.0.saturating_sub(st.t_send) + 100 * MS < m)
+                        }).unwrap_or(false)
+                    });
+                    if let Some(st) = acked_in_time {
+                        let v = first_reply[&(st.dst, st.tid)];
+                        report.violate("false-error", "error-despite-ack-within-the-reported-timeout", format!("put returned {q} at t={}ms although the acknowledgement of {} arrived {} ms after its store request, within the request timeout the writer reported throughout ({n} store requests)", t_done / MS, st.dst, v.0.saturating_sub(st.t_send) / MS));
+                    }
+                    if report.violation.is_none() {
+                        report.probe("very_slow_query_errors_judged", 1);
+                    }
+                }
                 // the put gave up although one of its store requests was outstanding, unexpired, and then
                 // acknowledged in time: that acknowledgement reached the caller's node before the request expired
                 let pending_ack = stores.iter().find(|st| st.t_send <= t_done && first_reply.get(&(st.dst, st.tid)).map(|v| v.1 == 0 && v.0 > t_done && v.0.saturating_sub(st.t_send) < 500 * MS).unwrap_or(false));
